@@ -216,10 +216,10 @@ example : HalfWidths none Ex.a Ex.steps [2, 4, 6] := by
     order and their widths, when each connection's own distances are half the widths of the two
     blocks it joins — with no assumption on the order of any connection set. -/
 theorem row_track_widths (T : TGrid) (k : Nat) (mv : Option Rat) (n : Nat) (b : Nat → GBlock) (cn : Nat → GConn)
-    (R : Row T k mv n b cn) (hn : 0 < n) (hlen : n ≤ T.blocks.length) (w : Nat → Rat)
+    (R : Row T k mv n b cn) (hn : 0 < n) (w : Nat → Rat)
     (hw : ∀ i, i < n → distAt (cn i) (b i).name = w i / 2 ∧ distAt (cn i) (b (i + 1)).name = w (i + 1) / 2) :
     track T (b 0) k mv = .ok ((List.range' 0 (n + 1)).map b, (List.range' 0 (n + 1)).map w) :=
-  track_row R hn hlen w hw
+  track_row R hn (by have := R.length_le; omega) w hw
 
 /-- Spacings of a three-dimensional rectangular lattice (at least two blocks in every direction):
     from the origin block `blk 0 0 nz` (first row, first column, bottom layer) `block_spacings`
@@ -230,7 +230,6 @@ theorem row_track_widths (T : TGrid) (k : Nat) (mv : Option Rat) (n : Nat) (b : 
 theorem rectgeo_spacings_lattice_partial (T : TGrid) (mv : Rat) (nx ny nz : Nat) (blk : Nat → Nat → Nat → GBlock)
     (cx cy cz : Nat → Nat → Nat → GConn) (L : Lattice T mv nx ny nz blk cx cy cz)
     (hx : 0 < nx) (hy : 0 < ny) (hz : 0 < nz)
-    (hlen : nx ≤ T.blocks.length ∧ ny ≤ T.blocks.length ∧ nz ≤ T.blocks.length)
     (it jt : Nat) (hit : it ≤ nx) (hjt : jt ≤ ny) (htop : topmostBlock T (some mv) = .ok (blk it jt 0))
     (c0 c1 : P3) (hc0 : (blk it jt 0).centre = some c0) (hc1 : (blk it jt nz).centre = some c1) (hdown : c1.z ≤ c0.z)
     (wx wy wz : Nat → Rat)
@@ -242,7 +241,7 @@ theorem rectgeo_spacings_lattice_partial (T : TGrid) (mv : Rat) (nx ny nz : Nat)
       distAt (cz it jt l) (blk it jt (l + 1)).name = wz (l + 1) / 2) :
     blockSpacings T (blk 0 0 nz) mv =
       .ok ((List.range' 0 (nx + 1)).map wx, (List.range' 0 (ny + 1)).map wy, (List.range' 0 (nz + 1)).map wz) :=
-  blockSpacings_lattice L hx hy hz hlen it jt hit hjt htop c0 c1 hc0 hc1 hdown wx wy wz hwx hwy hwz
+  blockSpacings_lattice L hx hy hz it jt hit hjt htop c0 c1 hc0 hc1 hdown wx wy wz hwx hwy hwz
 
 /-- Every column of a lattice is a vertical line of the grid, and every grid line along
     directions 1 and 2 is a line: the hypothesis `isLine` of `find_surface_on_line`,
@@ -261,7 +260,7 @@ example : Lattice Ex2.grid (10 ^ 20) 1 1 1 Ex2.blk Ex2.cx Ex2.cy Ex2.cz := Ex2.l
 example : topmostBlock Ex2.grid (some (10 ^ 20)) = .ok (Ex2.blk 0 0 0) := by decide +kernel
 example : blockSpacings Ex2.grid (Ex2.blk 0 0 1) (10 ^ 20) = .ok ([2, 4], [3, 5], [1, 2]) := by
   have h := rectgeo_spacings_lattice_partial Ex2.grid (10 ^ 20) 1 1 1 Ex2.blk Ex2.cx Ex2.cy Ex2.cz Ex2.lattice
-    (by omega) (by omega) (by omega) (by decide) 0 0 (by omega) (by omega) (by decide +kernel)
+    (by omega) (by omega) (by omega) 0 0 (by omega) (by omega) (by decide +kernel)
     ⟨1, 3 / 2, -1 / 2⟩ ⟨1, 3 / 2, -2⟩ (by decide +kernel) (by decide +kernel) (by decide +kernel)
     Ex2.wx Ex2.wy Ex2.wz
     (by intro i hi; have : i = 0 := by omega
